@@ -103,8 +103,7 @@ def run_step(root, do_step, step, fault=None, config_path=None, pool_seed=0, tim
     root = Path(root)
 
     def child(report):
-        import logging
-        logging.disable(logging.CRITICAL)
+        # (logging configuration is inherited from the run process, which varies it per run)
         pin_dependencies(config_path, pool_seed)
         _real_time.sleep = SimClock.sleep          # this process is the system's: no real blocking anywhere
         mods = seam_modules()
